@@ -2,6 +2,7 @@ import Driver.Proto
 import PqModel.Variant
 import PqModel.VariantShred
 import PqModel.VariantLevels
+import PqModel.VariantCursor
 
 /-! Ops of property C19 (variant encoding).
 
@@ -23,6 +24,11 @@ v ::= n | t | f | i8:<int> | i16:<int> | i32:<int> | i64:<int> | f32:<hex8 bits>
   (`<def>.<rep>.<payload>`, payload `-` = null) every leaf column below the variant group receives for one
   occurrence at definition level `g` / repetition depth `r` of the enclosing schema (level MIRROR `emit`)
 * `variant.ofcol <ptype> <leaf value>` → `ok <v>` / `err`: MIRROR of `parquetToVariantValue`
+* `variant.nav <schema> <path> <v>` → `ok <entry>;<entry>;…` (`ok -` = no entry): the entries the cursor at
+  `path` (`/`-separated steps, `k<hex key>` = Field, `e` = Elements, `-` = the root) shows for one row
+  shredded by the writer: `M` missing, `N` null, `R<v>` residual, `T<v>` typed, `O<v>` typed object,
+  `L<v>` typed list (`<v>` = the value behind the entry in normal form, `E` = not reconstructible);
+  MIRROR `navPathCur` over `rootWindow`
 * `variant.shred <schema> <v>` → `ok <shredded text> <reconstructed v> <non-null count per leaf column>`
   (logical shredding model) -/
 namespace Driver.Ops.C19
@@ -285,6 +291,29 @@ def parseColVal? (s : String) : Option ColVal :=
     | ["b1"] => some (.bool true)
     | _ => none
 
+def parseStep? (s : String) : Option Step :=
+  match s.toList with
+  | ['e'] => some .elems
+  | 'k' :: rest => (hexOpt? (String.ofList rest)).map .field
+  | _ => none
+
+def parsePath? (s : String) : Option (List Step) :=
+  if s == "-" then some [] else (s.splitOn "/").mapM parseStep?
+
+def showMat (c : Cur) : String :=
+  match matCur c with
+  | .val v => showV (canon v)
+  | _ => "E"
+
+def showCur (c : Cur) : String :=
+  match c with
+  | .missing => "M"
+  | .null => "N"
+  | .resid _ => "R" ++ showMat c
+  | .typedPrim _ => "T" ++ showMat c
+  | .typedObj _ _ _ => "O" ++ showMat c
+  | .typedList _ _ => "L" ++ showMat c
+
 def handle (toks : List String) : Option String :=
   match toks with
   | ["variant.enc", txt] => some <|
@@ -323,6 +352,12 @@ def handle (toks : List String) : Option String :=
       let cols := emit s g r rep (shred s v)
       s!"ok {toHex (encodeMeta d)} {";".intercalate (showCols d (colTypes s) cols)}"
     | _, _, _, _, _ => "bad-op"
+  | ["variant.nav", sch, path, txt] => some <|
+    match parseSchema? sch, parsePath? path, parseValue? txt with
+    | some s, some p, some v =>
+      let es := (navPathCur p (rootWindow s [v])).map showCur
+      if es.isEmpty then "ok -" else s!"ok {";".intercalate es}"
+    | _, _, _ => "bad-op"
   | ["variant.ofcol", t, c] => some <|
     match ptypeOfString t, parseColVal? c with
     | some t, some c =>
